@@ -364,6 +364,10 @@ def _c05():
     R("c05-domain-of-first-input", S, "            an = rx.ancestors(self._g, p[idx])\n            if an == set():\n                return self._g[p[idx]]._params[\"name\"]", "            an = rx.ancestors(self._g, p[0])\n            if an == set():\n                return self._g[p[0]]._params[\"name\"]", fires=["C05"])
     R("eq-c05-scan-return-form", C, '        inp = -1\n        for i in range(len(pstate["off"])):\n            if pstate["off"][i] == False and abs(vi[i]) != 0.0:\n                inp = i\n                break\n        return inp',
       '        for k in range(len(vi)):\n            if not pstate["off"][k] and vi[k] != 0:\n                return k\n        return -1', silent=["C05", "C01", "C04"])
+    R("c05-scan-gives-up-at-first-on-input", C, '        inp = -1\n        for i in range(len(pstate["off"])):\n            if pstate["off"][i] == False and abs(vi[i]) != 0.0:\n                inp = i\n                break\n        return inp',
+      '        for i, (off, v) in enumerate(zip(pstate["off"], vi)):\n            if not off:\n                return i if abs(v) != 0.0 else -1\n        return -1', fires=["C05"], note="an input that is on at 0 V ends the scan")
+    R("eq-c05-scan-zip-continue-form", C, '        inp = -1\n        for i in range(len(pstate["off"])):\n            if pstate["off"][i] == False and abs(vi[i]) != 0.0:\n                inp = i\n                break\n        return inp',
+      '        for i, (off, v) in enumerate(zip(pstate["off"], vi)):\n            if off:\n                continue\n            if abs(v) != 0.0:\n                return i\n        return -1', silent=["C05", "C01", "C04"])
     R("eq-c05-domain-scan-forward-break", S, "            for i in reversed(range(len(vin))):\n                if abs(vin[i]) != 0.0:\n                    idx = i", "            for i in range(len(vin)):\n                if abs(vin[i]) != 0.0:\n                    idx = i\n                    break", silent=["C05"])
 
 
